@@ -67,7 +67,7 @@ def expectedGlue : Glue :=
     compiledFrom := "tuple(model.get_parameter_values().values())",
     matrix := "to_symbolic_model(model).jacobian()",
     recompileOnChange := true, storesValues := true, watchesModel := true, storesCache := true,
-    cacheFrom := "model._create_cache()", compileBeforeStore := true, compileInsideTry := true, catchesAll := true,
+    cacheFrom := "model._cache (read after compiling)", compileBeforeStore := true, compileInsideTry := true, catchesAll := true,
     fallbackNone := true, fallbackWarns := true, integratorGetsJac := true, onlyWhenRequested := true,
     reinitSites := ["__init__", "clear_results", "update_variables"],
     parameterSites := ["scale_parameter", "scale_parameters", "update_parameter", "update_parameters"] }
@@ -110,6 +110,13 @@ def JacClosure.callG (g : Glue) (cl : JacClosure) (clVer : Nat) (now : SContent)
         (st, evalJacFn f t xs (if g.passesCurrent then values else st.1.vals))
     else ((cl, clVer), evalJacFn cl.fn t xs (if g.passesCurrent then values else cl.vals))
 
+/-- does `jac_fn` compile again at this call?  (the test of the recompile branch; `false` when the parameter values
+    cannot be read: the call raises before) -/
+def JacClosure.recompilesG (g : Glue) (cl : JacClosure) (clVer : Nat) (now : SContent) (nowVer : Nat) : Bool :=
+  match jacArgs now with
+  | .error _ => false
+  | .ok (_, _, values) => (g.recompileOnChange && values != cl.vals) || (g.watchesModel && nowVer != clVer)
+
 /-- `_initialise_integrator` with the facts `g`: `.ok none` = fallback (a warning is logged, no Jacobian);
     an error = the conversion error escapes from the constructor -/
 def installG (g : Glue) (useJac : Bool) (c : SContent) : Except Err (Option JacClosure) :=
@@ -140,6 +147,12 @@ structure SimState where
   version : Nat := 0
   jac : Option (JacClosure × Nat)
 deriving Inhabited
+
+/-- … for the closure the integrator currently holds -/
+def SimState.recompilesG (g : Glue) (s : SimState) : Bool :=
+  match s.jac with
+  | none => false
+  | some (cl, ver) => cl.recompilesG g ver s.content s.version
 
 /-- observable of one step -/
 inductive SimOut where
